@@ -140,7 +140,9 @@ func keyString(v rj.Value) string {
 
 // hostModel is the model side: functions for ref/json plus the call log.
 type hostModel struct {
-	log []string
+	log    []string
+	fired  bool    // a holder-mutating callback has done its mutation (mutators.go)
+	target *rj.Obj // the object a holder-mutating toJSON operates on
 }
 
 func (h *hostModel) fn(mode, name string) *rj.Obj {
@@ -187,6 +189,8 @@ type drv struct {
 	stringify otto.Value
 	log       []string
 	cache     map[string]otto.Value
+	fired     bool       // see hostModel.fired
+	del       otto.Value // function(o, k) { delete o[k] }
 }
 
 func newDrv() *drv {
@@ -206,6 +210,7 @@ func newDrv() *drv {
 			}
 		}
 	}
+	d.registerMutators()
 	return d
 }
 
@@ -349,6 +354,7 @@ type outcome struct {
 
 func (d *drv) call(fn otto.Value, args ...interface{}) outcome {
 	d.log = d.log[:0]
+	d.fired = false
 	res := ox.Guard(func() (otto.Value, error) { return fn.Call(otto.UndefinedValue(), args...) })
 	switch {
 	case res.Panicked:
